@@ -178,6 +178,18 @@ pub fn run(seed: u64, thorough: bool) {
         let _ = keygen_aux(shape.hash, &shape.levels, &sd2, &mut other);
         keygen_case(shape, &sd, &other, "other_seed", &base, kc, "");
         sign_case(shape, &blob, &msg, &other, "other_seed", &sbase, sc, "");
+        // a buffer made for the same seed and shape under the OTHER hash family of equal output length
+        // (the MAC must be computed with the tree's hash function)
+        {
+            let other_hash = match shape.hash {
+                "sha256_128" => "shake256_128", "sha256_192" => "shake256_192", "sha256_256" => "shake256_256",
+                "shake256_128" => "sha256_128", "shake256_192" => "sha256_192", _ => "sha256_256",
+            };
+            let mut foreign = vec![0u8; 2000];
+            let _ = keygen_aux(other_hash, &shape.levels, &sd, &mut foreign);
+            keygen_case(shape, &sd, &foreign, "other_hash_same_seed", &base, kc, "");
+            sign_case(shape, &blob, &msg, &foreign, "other_hash_same_seed", &sbase, sc, "");
+        }
         // buffers made for seeds that differ from this one in a single byte (every position) --
         // the MAC key must depend on the whole seed
         for pos in 0..n {
